@@ -1300,6 +1300,7 @@ def _np_broadcast_shapes(*shapes):
     return tuple(out)
 
 
+_NP_FUNCS.update(mean=lambda a, axis=None, **kw: XArray.from_nested(a).mean(axis, **kw))
 _NP_FUNCS.update(broadcast_shapes=_np_broadcast_shapes, full=_np_full, argsort=_np_argsort, sort=_np_sort, unique=_np_unique, searchsorted=_np_searchsorted, broadcast_to=_np_broadcast_to)
 
 
